@@ -353,6 +353,31 @@ impl TypeContext {
         // Lifetime validity check
         for (_id, ty) in self.all_types() {
             errors.set_item(ty.name().as_str());
+
+            // An iterable hands out an iterator: the type it returns needs an `iterator` method
+            // (backends look up what is iterated over through it)
+            if let Some(iterator_id) = ty.special_method_presence().iterable {
+                if self
+                    .resolve_opaque(iterator_id)
+                    .special_method_presence
+                    .iterator
+                    .is_none()
+                {
+                    if let Some(method) = ty.methods().iter().find(|m| {
+                        matches!(
+                            m.attrs.special_method,
+                            Some(hir::SpecialMethod::Iterable)
+                        )
+                    }) {
+                        errors.set_subitem(method.name.as_str());
+                    }
+                    errors.push(LoweringError::Other(format!(
+                        "Iterable method must return a type with an `iterator` method, but {} has none",
+                        self.resolve_opaque(iterator_id).name.as_str()
+                    )));
+                }
+            }
+
             for method in ty.methods() {
                 errors.set_subitem(method.name.as_str());
 
